@@ -76,6 +76,7 @@ func partRegistryStorms(c *check.Ctx, a *acc) {
 	n := c.Pick(8, 48)
 	var mu sync.Mutex
 	total, done := 0, 0
+	races, racesAccepted := 0, 0
 	parallel(n, 4, func(i int) {
 		opts := sut.LabOpts{Name: "regstorm"}
 		if i%2 == 1 {
@@ -88,10 +89,15 @@ func partRegistryStorms(c *check.Ctx, a *acc) {
 		}
 		defer p.Kill()
 		created, findings, inc := e2.RegistryStorm(p, 8, c.Pick(40, 120))
+		nr, na, f2, inc2 := e2.JoinLeaveRaceStorm(p, 8, c.Pick(40, 160), c.Seed*31+int64(i))
+		findings = append(findings, f2...)
+		inc = append(inc, inc2...)
 		mu.Lock()
 		defer mu.Unlock()
 		done++
 		total += created
+		races += nr
+		racesAccepted += na
 		for _, f := range findings {
 			c.Report(f)
 		}
@@ -101,6 +107,8 @@ func partRegistryStorms(c *check.Ctx, a *acc) {
 	})
 	c.Coverage["registry_storms"] = done
 	c.Coverage["registry_storm_sessions_created_and_probed"] = total
+	c.Coverage["join_vs_last_departure_races"] = races
+	c.Coverage["join_vs_last_departure_races_join_accepted"] = racesAccepted
 	a.add(done, done, "registry storms: 8 pairs of connections create a session, join it by id at once and end it, concurrently (free-running or jittered): every just-created session with a live member must be joinable under its id with the same uuid; gauge and frame workers are checked at the end",
 		map[string]any{"engine": "E2 registry storm", "pairs": 8, "sessions_created": total})
 }
